@@ -3,25 +3,133 @@
 package models
 
 // Contracts for govc (see /verif/DESIGN.md §8 C11). Comment-only file: it adds no code.
+//
+// wfNode(n) is the per-node part of the model's own CheckConsistency plus the symmetry of
+// parent/child links; a tree is well-formed when wfNode holds for every node in it.
+
+//@ pred isGot(s ItemState) = s == ItemGotChildren || s == ItemGotRedirected
+//@ pred hasWork(s ItemState) = s != ItemCompleted && s != ItemSeen && s != ItemFailed
+//@ pred statusOK(s ItemState) = 0 <= s && s <= 7
+//@ pred wfLocal(n *Item) = n.url != nil && n.id != "" && (n.parent != nil ==> n.seedVia == "") && (n.status == ItemFresh ==> len(n.children) == 0) && (n.status == ItemFresh && n.parent != nil ==> isGot(n.parent.status)) && (len(n.children) > 1 ==> n.status != ItemGotRedirected) && (len(n.children) > 0 ==> isGot(n.status) || n.status == ItemCompleted || n.status == ItemFailed)
+//@ pred linked(n *Item) = forall(j, 0, len(n.children), n.children[j] != nil && n.children[j].parent == n)
+//@ pred wfNode(n *Item) = wfLocal(n) && linked(n)
+
+//@ func NewItem
+//@   property C11
+//@   modifies nothing
+//@   ensures [nil] (ID == "" || URL == nil) == (result == nil)
+//@   ensures [fresh] result != nil ==> fresh(result) && result.id == ID && result.url == URL && result.seedVia == seedVia && result.parent == nil && result.status == ItemFresh && len(result.children) == 0 && result.err == nil
+//@   ensures [wf] result != nil ==> wfNode(result) // C11: the tree stays well-formed
+
+//@ func (*Item).GetID
+//@   inline
+//@ func (*Item).GetURL
+//@   inline
+//@ func (*Item).GetStatus
+//@   inline
+//@ func (*Item).GetParent
+//@   inline
+//@ func (*Item).GetSeedVia
+//@   inline
+//@ func (*Item).GetSource
+//@   inline
+//@ func (*Item).GetBase
+//@   inline
+//@ func (*Item).GetError
+//@   inline
+//@ func (*URL).GetHops
+//@   inline
+
+//@ func (*Item).IsSeed
+//@   property C11
+//@   modifies nothing
+//@   ensures [def] result == (i.parent == nil)
+//@ func (*Item).IsRedirection
+//@   property C11
+//@   modifies nothing
+//@   ensures [def] result == (i.parent != nil && i.parent.status == ItemGotRedirected)
+//@ func (*Item).IsChild
+//@   property C11
+//@   modifies nothing
+//@   ensures [def] result == (i.parent != nil && i.parent.status == ItemGotChildren)
+//@ func (*Item).HasRedirection
+//@   property C11
+//@   modifies nothing
+//@   ensures [def] result == (len(i.children) == 1 && i.status == ItemGotRedirected)
+//@ func (*Item).HasChildren
+//@   property C11
+//@   modifies nothing
+//@   ensures [def] result == (len(i.children) > 0 && i.status == ItemGotChildren)
+//@ func (*Item).HasWork
+//@   property C11
+//@   modifies nothing
+//@   ensures [def] result == hasWork(i.status) // C11: awaits fetching or post-processing
+
+//@ func (*Item).SetStatus
+//@   property C11
+//@   modifies i.status
+//@   ensures [set] i.status == status
+
+//@ func (*Item).SetError
+//@   property C11
+//@   modifies i.err
+//@   ensures [set] i.err == err
+
+// AddChild: full view of the new children sequence, links and statuses; error paths change
+// nothing. Preconditions are what the stages establish: a freshly made child, and a
+// redirection only on a node that has no child yet.
+//@ func (*Item).AddChild
+//@   property C11
+//@   attr guarded i i.childrenMu exempt id,url,seedVia,status,source,base,parent,err
+//@   requires [wf] wfNode(i) && (child != nil ==> wfNode(child) && child.parent == nil && len(child.children) == 0 && child.seedVia == "" && child != i)
+//@   requires [redirect-once] from == ItemGotRedirected ==> len(i.children) == 0
+//@   modifies i.children, i.status, child.parent, child.status, elems(i.children)
+//@   ensures [error-iff] (result != nil) == (child == nil || !isGot(from))
+//@   ensures [error-pure] result != nil ==> len(i.children) == old(len(i.children)) && i.status == old(i.status) && forall(j, 0, len(i.children), i.children[j] == old(i.children[j]))
+//@   ensures [appended] result == nil ==> len(i.children) == old(len(i.children)) + 1 && i.children[len(i.children)-1] == child && forall(j, 0, old(len(i.children)), i.children[j] == old(i.children[j])) // C11: adding assets or a redirect target
+//@   ensures [linked] result == nil ==> child.parent == i && i.status == from && child.status == ItemFresh // C11: symmetric parent/child links
+//@   ensures [wf] result == nil ==> wfNode(i) && wfNode(child) // C11: the tree stays well-formed
+
+// _unsafeRemoveChild: removes the first child with the given id (in-place shift), nothing else.
+//@ func _unsafeRemoveChild
+//@   property C11
+//@   requires [linked] parent != nil && linked(parent)
+//@   modifies parent.children, elems(parent.children)
+//@   loop range invariant [scanned] -1 <= rangeindex && rangeindex <= len(parent.children) && forall(j, 0, rangeindex+1, parent.children[j].id != childID)
+//@   ensures [absent] forall(j, 0, old(len(parent.children)), old(parent.children[j]).id != childID) ==> len(parent.children) == old(len(parent.children)) && forall(j, 0, len(parent.children), parent.children[j] == old(parent.children[j]))
+//@   ensures [removed] !forall(j, 0, old(len(parent.children)), old(parent.children[j]).id != childID) ==> exists(k, 0, old(len(parent.children)), old(parent.children[k]).id == childID && forall(j, 0, k, old(parent.children[j]).id != childID) && len(parent.children) == old(len(parent.children)) - 1 && forall(j, 0, k, parent.children[j] == old(parent.children[j])) && forall(j, k, len(parent.children), parent.children[j] == old(parent.children[j+1]))) // C11: removing rejected children
+//@   ensures [still-linked] linked(parent)
+
+//@ func (*Item).RemoveChild
+//@   property C11
+//@   attr guarded parent parent.childrenMu exempt id,url,seedVia,status,source,base,parent,err
+//@   requires [linked] parent != nil && child != nil && linked(parent)
+//@   modifies parent.children, elems(parent.children)
+//@   ensures [absent] forall(j, 0, old(len(parent.children)), old(parent.children[j]).id != child.id) ==> len(parent.children) == old(len(parent.children)) && forall(j, 0, len(parent.children), parent.children[j] == old(parent.children[j]))
+//@   ensures [removed] !forall(j, 0, old(len(parent.children)), old(parent.children[j]).id != child.id) ==> exists(k, 0, old(len(parent.children)), old(parent.children[k]).id == child.id && forall(j, 0, k, old(parent.children[j]).id != child.id) && len(parent.children) == old(len(parent.children)) - 1 && forall(j, 0, k, parent.children[j] == old(parent.children[j])) && forall(j, k, len(parent.children), parent.children[j] == old(parent.children[j+1])))
+//@   ensures [still-linked] linked(parent)
+//@   ensures [statuses] parent.status == old(parent.status)
+
+//@ func allChildrenCompleted
+//@   property C11
+//@   modifies nothing
+//@   loop range invariant [scanned] -1 <= rangeindex && rangeindex <= len(children) && forall(j, 0, rangeindex+1, children[j] == nil || !hasWork(children[j].status))
+//@   ensures [def] result == forall(j, 0, len(children), children[j] == nil || !hasWork(children[j].status)) // C11: complete iff no node still awaits work
+
+// CheckConsistency: the executable check implies the per-node part of the predicate for the
+// node it is called on and (by the recursive call, whose contract is assumed) for its children.
+//@ func (*Item).CheckConsistency
+//@   property C11
+//@   modifies nothing
+//@   loop range invariant [checked] -1 <= rangeindex && rangeindex <= len(i.children) && forall(j, 0, rangeindex+1, i.children[j] != nil && wfLocal(i.children[j]))
+//@   ensures [sound] result == nil ==> i != nil && wfLocal(i) && forall(j, 0, len(i.children), i.children[j] != nil && wfLocal(i.children[j])) // C11: as the model's own consistency check demands
 
 //@ func (*Item).GetShortID
 //@   opaque
 //@   modifies nothing
-
-//@ func (*Item).CheckConsistency
-//@   opaque
-//@   modifies nothing
-
-//@ func (*Item).GetStatus
-//@   inline
-
 //@ func (*Item).GetDepth
 //@   opaque
 //@   modifies nothing
-//@ func (*Item).GetURL
-//@   inline
-//@ func (*URL).GetHops
-//@   inline
 //@ func (ItemState).String
 //@   opaque
 //@   modifies nothing
